@@ -39,6 +39,15 @@ def dump(exe, texts, stages, shells=('bash',), timeout=600, shard=None):
     """texts: list of bytes.  Returns list (per text) of {shell: {STAGE: payload}}.
     A batch that dies (stack overflow, abort) is re-run one grammar per process so that the
     crash is attributed to its input: that case gets {'CRASH': rc}."""
+    if any(b'\0' in t for t in texts):
+        # the harness separates its inputs by NUL bytes: a text with a NUL cannot go through this protocol (it would
+        # shift every later case); such a text gets {'UNSUPPORTED': ...} and the others are dumped without it
+        keep = [i for i, t in enumerate(texts) if b'\0' not in t]
+        sub = dump(exe, [texts[i] for i in keep], stages, shells, timeout, shard)
+        out = [{sh: {'UNSUPPORTED': 'NUL byte in the text'} for sh in shells} for _ in texts]
+        for i, d in zip(keep, sub):
+            out[i] = d
+        return out
     n = len(texts)
     shard = shard or max(1, min(400, (n + paths.NCPU - 1) // paths.NCPU))
     chunks = [(i, texts[i:i + shard]) for i in range(0, n, shard)]
